@@ -1,6 +1,7 @@
 (** Correspondence glue for C02: run the model of [root_parse] / [append] / [wrap] on what the
     harness recorded and compare with what the implementation produced.  No kernel logic here. *)
-From Sq Require Import Base.Corr Apply.Model.
+From Sq Require Import Base.Corr.
+From Sq Require Export Apply.Model.
 
 (** trees are compared up to the token index of metas (the real tree does not carry it;
     meta *positions* are compared under C12) *)
